@@ -504,4 +504,6 @@ def main(argv=None):
 
 
 if __name__ == "__main__":
-    sys.exit(main())
+    # delegate to the module object that the checks import (see hv/run.py)
+    from hv.core import main as _main
+    sys.exit(_main())
